@@ -262,3 +262,30 @@ for _id, (_engine, _more) in _ADDED.items():
     if _engine:
         CHECKS[_id]["engine"] = _engine
     CHECKS[_id]["text"] += _more
+
+
+# what the fourth strengthening round added
+_ADDED4 = {
+    "C01": " Added: the mapping may not depend on what the process sent before (equal-valued Decimal forms sent in opposite orders on fresh numbers, as result and as argument).",
+    "C03": " Added: the daemon's answer to every (re)connect handshake can be lost, cut or reset like any reply; after a call that *reported* a communication error the very next call "
+           "over the healthy transport must be served.",
+    "C04": " Added: a tagged dict (Proxy / URI / application class) in every argument position and under every attribute name that exception constructors and setters treat "
+           "specially (args, __notes__, __cause__, __context__, __traceback__, msg, filename, name).",
+    "C05": " Added: a well-behaved client that reconnects for every call (its accepts share poll rounds with the hostile bytes; descriptor numbers are reused and the order of ready "
+           "descriptors is a choice of the explorer); an execution that never comes to rest (livelock) is a violation.",
+    "C09": " Added: the class is unregistered (by object / by id / displaced by force) and registered again inside a history; creators that fail once under every schedule of 2-3 "
+           "racing first calls.",
+    "C10": " Added: searches that start behind a fixed two-step prefix (one stream-owning connection already gone for 10 s), clock steps of 25 s, and a client that gives all its requests "
+           "one correlation id; the quick search is exhaustive to its depth (no state cap).",
+    "C11": " Added letters: a member that re-binds an exposed name of the object to another exposed method, and a member returning sets and tuples.",
+    "C13": " Added ending: a remote method that raises SystemExit (thread server).",
+    "C15": " Added: after the concurrent operations every query is asked once more sequentially; the linearisation must explain those answers too (state left behind in caches).",
+    "C16": " Added: every history is also replayed with each pool object returned from a remote method and asked for its uri/proxy after every step; registrations of an object that "
+           "cannot carry attributes (__slots__) must fail without trace.",
+    "C17": " Added: receive on a socket in blocking mode (gettimeout() None); recv_into served from the same scripts; a loop that keeps calling the socket (> 2000 calls) is a violation.",
+    "C18": " Added: jobs that end their worker thread (SystemExit) - the slot must be free again and later jobs served - and Thread.start failing when the pool wants to grow "
+           "(nothing may remain of the attempt).",
+    "C20": " Added: a forwarded call whose reply is lost to a connection reset after the method ran: invoked once, error status, next request served.",
+}
+for _id, _more in _ADDED4.items():
+    CHECKS[_id]["text"] += _more
